@@ -60,7 +60,8 @@ Definition result_type (op : opk) (t1 t2 : vt) : vt :=
         then int_signed else r
   end.
 
-(* ---- integer literals: setValueTypeInTokenList.  dec = MathLib::isDec; usfx = a 'u'/'U' occurs;
+(* ---- integer literals: setValueTypeInTokenList.  dec = MathLib::isDec && !MathLib::isOct (a decimal
+   literal; since /repo 75f7975); usfx = a 'u'/'U' occurs;
    lcount = number of l/L in the suffix (i64 counts as 2); value = toBigUNumber *)
 Definition max_signed (bits : N) : N := 2 ^ (bits - 1) - 1.
 Definition is_int_value (p : platform) (v : N) : bool := v <=? max_signed (int_bit p).
@@ -72,8 +73,8 @@ Definition literal_type (p : platform) (dec usfx : bool) (lcount : N) (value : N
   let rk : N := if lcount =? 0 then 0 else if lcount =? 1 then 1 else 2 in     (* 0 INT, 1 LONG, 2 LONGLONG *)
   let v1 := if usfx then N.shiftr value 1 else value in
   if (rk =? 0) && is_int_value p v1 then mkVt VInt sign0
-  else if (rk =? 0) && negb dec && is_int_value p (N.shiftr value 2) then mkVt VInt SUnsigned
+  else if (rk =? 0) && negb dec && is_int_value p (N.shiftr value 1) then mkVt VInt SUnsigned
   else if (rk <=? 1) && is_long_value p v1 then mkVt VLong sign0
-  else if (rk <=? 1) && negb dec && is_long_value p (N.shiftr value 2) then mkVt VLong SUnsigned
+  else if (rk <=? 1) && negb dec && is_long_value p (N.shiftr value 1) then mkVt VLong SUnsigned
   else if is_longlong_value p v1 then mkVt VLongLong sign0
   else mkVt VLongLong SUnsigned.
